@@ -256,9 +256,29 @@ def alternating(rng, depth, kind, pool):
     return {"k": "oor" if kind == "or" else rng.choice(["oand", "fb"]), "args": args}
 
 
+def absorption_grid():
+    """every OR of a two-operand AND / FOLLOWEDBY with a three-operand AND / FOLLOWEDBY over the same observations (all operand orders), against each of its two operands:
+    which of them absorbs the other is a matter of the semantics (A AND B AND C implies A AND B, not A FOLLOWEDBY B; A FOLLOWEDBY B FOLLOWEDBY C implies both)"""
+    import itertools
+    A, B, C = ({"k": "obs", "e": IP.cmp_("b", "=", IP.I(1))}, {"k": "obs", "e": IP.cmp_("b", "=", IP.I(2))}, {"k": "obs", "e": IP.cmp_("c", "=", IP.I(1))})
+    out = []
+    for k2 in ("oand", "fb"):
+        for small in itertools.permutations((A, B), 2):
+            X = {"k": k2, "args": [copy.deepcopy(x) for x in small]}
+            for k3 in ("oand", "fb"):
+                for big in itertools.permutations((A, B, C), 3):
+                    Y = {"k": k3, "args": [copy.deepcopy(x) for x in big]}
+                    P = {"k": "oor", "args": [{"k": "paren", "e": copy.deepcopy(X)}, {"k": "paren", "e": copy.deepcopy(Y)}]}
+                    out.append((P, X, "absorption_grid:%s_or_%s:against_the_smaller" % (k2, k3)))
+                    out.append((P, Y, "absorption_grid:%s_or_%s:against_the_larger" % (k2, k3)))
+    return out
+
+
 def generate(chk, quick):
     rng = chk.rng
     lines = []
+    for P, Q, how in absorption_grid():
+        lines.append(pair_line(P, Q, "none", how))
     for i in range(16 if quick else 400):
         pool = [{"k": "obs", "e": IP.cmp_(prop, "=", IP.I(v))} for prop in "bc" for v in (0, 1, 2, 3)]
         rng.shuffle(pool)
